@@ -2160,6 +2160,13 @@ def _b_max(interp, args, kwargs, node):
     raise Unsupported("max", node)
 
 
+def _b_reversed(interp, args, kwargs, node):
+    x = args[0]
+    if isinstance(x, (list, tuple, range, str)):
+        return list(reversed(x))
+    raise Unsupported("reversed() of a symbolic sequence", node)
+
+
 def _b_vars(interp, args, kwargs, node):
     if len(args) == 1 and isinstance(args[0], Rec) and isinstance(args[0].attrs.get("__dict__"), dict):
         return args[0].attrs["__dict__"]
@@ -2172,7 +2179,7 @@ BUILTINS = {
         len=_b_len, range=_b_range, isinstance=_b_isinstance, str=_b_str, bool=_b_bool, list=_b_list, tuple=_b_tuple,
         set=_b_set, dict=_b_dict, enumerate=_b_enumerate, zip=_b_zip, all=_b_all, any=_b_any, sorted=_b_sorted,
         getattr=_b_getattr, hasattr=_b_hasattr, setattr=_b_setattr, delattr=_b_delattr, int=_b_int, type=_b_type,
-        min=_b_min, max=_b_max, next=_b_next, vars=_b_vars,
+        min=_b_min, max=_b_max, next=_b_next, vars=_b_vars, reversed=_b_reversed,
     ).items()
 }
 
